@@ -103,14 +103,21 @@ pub fn harness_guess() -> CallingProcess {
 static SCHEDULES: StdAtomicUsize = StdAtomicUsize::new(0);
 static OUTCOMES_KNOWN: StdAtomicUsize = StdAtomicUsize::new(0);
 
-fn scenario(known: bool, main_queries: usize, thread_queries: usize, n_threads: usize) {
+/// known: 0 = delta launches nothing; 1 = it launches a command it understands (published as known);
+/// 2 = it launches a command it does not describe (`git status`): the guess stays in force
+fn scenario(known: usize, main_queries: usize, thread_queries: usize, n_threads: usize) {
     use utils::process::*;
     SCHEDULES.fetch_add(1, StdOrdering::SeqCst);
     start_determining_calling_process_in_thread();
     let known_args = ["git", "grep", "-n", "x"];
-    let expected = if known { parse(&known_args) } else { harness_guess() };
-    if known {
+    let unparsed_args = ["git", "status"];
+    let expected = if known == 1 { parse(&known_args) } else { harness_guess() };
+    if known == 1 {
         let v: Vec<String> = known_args.iter().map(|s| s.to_string()).collect();
+        set_calling_process(&v);
+    } else if known == 2 {
+        let v: Vec<String> = unparsed_args.iter().map(|s| s.to_string()).collect();
+        assert!(!matches!(describe_calling_process(&v), ProcessArgs::Args(_)), "harness: `git status` is described");
         set_calling_process(&v);
     }
     let mut qs = Vec::new();
@@ -148,7 +155,7 @@ fn main() {
         eprintln!("usage: loom_c20 <known 0|1> <main queries> <thread queries> <query threads> <preemption bound | none>");
         std::process::exit(2);
     }
-    let known = args[1] == "1";
+    let known: usize = args[1].parse().unwrap();
     let mq: usize = args[2].parse().unwrap();
     let tq: usize = args[3].parse().unwrap();
     let mut b = loom::model::Builder::new();
